@@ -414,8 +414,8 @@ class XsdSimpleType(XsdType, ValidationMixin[str | bytes, DecodedValueType]):
         if derivation:
             if derivation == self.derivation:
                 derivation = None  # derivation mode checked
-            elif self.derivation:
-                return False
+            elif self.derivation or derivation == 'extension':
+                return False  # a simple type is never derived by extension
 
         if other.ref is not None:
             other = other.ref
@@ -434,8 +434,9 @@ class XsdSimpleType(XsdType, ValidationMixin[str | bytes, DecodedValueType]):
             if not self.base_type.has_simple_content():
                 return False
             return self.base_type.content.is_derived(other, derivation)  # type: ignore
-        elif isinstance(other, XsdUnion):
-            return any(self.is_derived(m, derivation) for m in other.member_types)
+        elif isinstance(other, XsdUnion) and \
+                any(self.is_derived(m, derivation) for m in other.member_types):
+            return True
         else:
             return self.base_type.is_derived(other, derivation)
 
@@ -967,12 +968,16 @@ class XsdList(XsdSimpleType):
 
         if derivation and self.derivation and derivation != self.derivation:
             return False
+        elif derivation == 'extension':
+            return False  # a simple type is never derived by extension
         elif self is other or self.ref is other:
             return True
         elif other.name in self._special_types:
             return derivation != 'extension'
         elif self.item_type is other:
             return True
+        elif isinstance(other, XsdUnion):
+            return any(self.is_derived(m, derivation) for m in other.member_types)
         else:
             return False
 
